@@ -79,7 +79,14 @@ def _all_fns(interp):
 
 
 def _all_lit(name, sv):
+    if name.startswith('in_'):      # 'in_u0020u0009': every character is one of the listed ones
+        allowed = {chr(int(h, 16)) for h in name[3:].split('u') if h}
+        return all(c in allowed for c in sv)
     return all(getattr(c, name)() for c in sv)
+
+
+def all_in_name(chars):
+    return 'in_' + ''.join('u%04x' % ord(c) for c in sorted(set(chars)))
 
 
 def all_fn(interp, name):
@@ -256,11 +263,11 @@ def _decomps(interp, t):
     return _usable(interp, _decomp_entry(interp, t)[1])
 
 
-def _add_decomp(interp, t, pieces):
+def _add_decomp(interp, t, pieces, universal=False):
     st = interp.st
     st._keep = getattr(st, '_keep', [])
     st._keep.extend(st.scopes)      # keep the scope terms alive: their ids identify them
-    _decomp_entry(interp, t)[1].append((st._scope_ids(), list(pieces)))
+    _decomp_entry(interp, t)[1].append((frozenset() if universal else st._scope_ids(), list(pieces)))
 
 
 def norm(interp, t, depth=0):
@@ -686,8 +693,10 @@ def _strip(interp, s, chars, left, right):
         raise Unsupported('strip() of Unicode white space (bounded stand-in only)')
     if isinstance(chars, Sym) or not chars:
         raise Unsupported('strip with symbolic character set')
+    chars = ''.join(sorted(set(chars)))      # (the set of characters is what matters)
     kind = ('l' if left else '') + ('r' if right else '')
-    f = z3.Function('str.%sstrip[%r]' % ({'lr': '', 'l': 'l', 'r': 'r'}[kind], chars), z3.StringSort(),
+    f = z3.Function('str.%sstrip_%s' % ({'lr': '', 'l': 'l', 'r': 'r'}[kind],
+                                        ''.join('u%04x' % ord(c) for c in chars)), z3.StringSort(),
                     z3.StringSort())
     r = f(t)
     key = ('__strip__', kind, chars, t.get_id())
@@ -696,14 +705,18 @@ def _strip(interp, s, chars, left, right):
         cls = _char_class_re(chars)
         a = _fresh(interp, 'strip.l') if left else z3.StringVal('')
         b = _fresh(interp, 'strip.r') if right else z3.StringVal('')
-        st.assume(t == _cat([a, r, b]))
+        # the definition of the function at this argument: holds in every context (not scoped)
+        st.axiom(t == _cat([a, r, b]))
+        # "consists of characters of `chars` only" is the additive measure all_in_<chars> (no regular
+        # expression: membership of a variable in a starred class is where the solvers get lost)
         if left:
-            st.assume(z3.InRe(a, cls))
-            st.assume(z3.And(*[z3.Not(z3.PrefixOf(z3.StringVal(c), r)) for c in chars]))
+            st.axiom(all_term(interp, a, all_in_name(chars)))
+            st.axiom(z3.And(*[z3.Not(z3.PrefixOf(z3.StringVal(c), r)) for c in chars]))
         if right:
-            st.assume(z3.InRe(b, cls))
-            st.assume(z3.And(*[z3.Not(z3.SuffixOf(z3.StringVal(c), r)) for c in chars]))
-        _add_decomp(interp, t, [x for x in (a, r, b) if not (z3.is_string_value(x) and x.as_string() == '')])
+            st.axiom(all_term(interp, b, all_in_name(chars)))
+            st.axiom(z3.And(*[z3.Not(z3.SuffixOf(z3.StringVal(c), r)) for c in chars]))
+        _add_decomp(interp, t, [x for x in (a, r, b) if not (z3.is_string_value(x) and x.as_string() == '')],
+                    universal=True)
         note_concat(interp, t, [a, r, b])
     return wrap(r)
 
